@@ -387,8 +387,12 @@ class Machine(object):
     intr = op.get("interrupt")
     li = None
     if intr:
-      n_points, funcs = self._count_crash_points(h, args, kwargs)
-      at = min(int(float(intr.get("frac", 0.5)) * n_points), max(n_points - 1, 0))
+      if intr.get("at") is not None:
+        n_points, funcs = int(intr.get("n", 0)), []        # position enumerated by the plan itself
+      else:
+        n_points, funcs = self._count_crash_points(h, args, kwargs)
+      at = int(intr["at"]) if intr.get("at") is not None else \
+          min(int(float(intr.get("frac", 0.5)) * n_points), max(n_points - 1, 0))
       if intr.get("func") is not None and funcs:
         # stratified by function: first a function the call passes through, then a
         # line event inside it - short phases get the same share as long loops
